@@ -30,7 +30,7 @@ ASSUMPTIONS = ["simulated MPI collectives (payloads pickled per rank)"]
 MIN_MONITOR = {"mon.partitions": 600, "mon.parts": 800, "mon.names_read": 1500,
                "mon.messages": 500, "mon.crossprocess_programs": 8}
 SHARD_TIMEOUT = {"quick": 900, "thorough": 7200}
-N_PROGRAMS = {"quick": 1200, "thorough": 24000}
+N_PROGRAMS = {"quick": 3000, "thorough": 24000}
 N_XPROC = {"quick": 16, "thorough": 160}
 
 
